@@ -103,8 +103,9 @@ def build_records(pa, rng, tier, rep):
         def enc(t, ex_):
             lab = 0 if t[2] is None else rank[t[2]]
             return [int(t[0]), int(t[1]), lab] if ex_ else [fidx[t[0]], fidx[t[1]], lab]
+        strs = [[]] + [[ord(ch) for ch in name] for name, _ in sorted(rank.items(), key=lambda kv: kv[1])] if cat == "lev" else []
         rec = {"cls": cls, "cat": cat, "de": rat(de), "alpha": rat(alpha), "beta": rat(beta),
-               "M": M or [], "supplied": supplied or [], "pos": pos or [],
+               "M": M or [], "supplied": supplied or [], "pos": pos or [], "strs": strs[1:] if strs else [],
                "pairs": [{"u": enc(a, ex_), "v": enc(b, ex_), "exact": 1 if ex_ else 0, "d": o[0], "dsym": o[1], "comp": o[2], "compsym": o[3]}
                          for (a, b, ex_), o in zip(pairs_spec, obs)]}
         recs.append(rec)
@@ -133,9 +134,18 @@ def build_records(pa, rng, tier, rep):
         add("pos", "none", pa.PositionalSporadicDissimilarity(delta_empty=de), grid_pairs(["x"], floats=20), de, rank={"x": 1},
             meta={"kind": "PositionalSporadic"})
     # --- absolute (labels incl. none)
+    other3 = ["delta", "epsilon", "zeta"]           # the same number of names, other names: the SAME object must cope
+    rank_other = {n: i + 1 for i, n in enumerate(sorted(other3))}
     for de in des:
-        add("cat", "abs", pa.AbsoluteCategoricalDissimilarity(delta_empty=de), grid_pairs(names3 + [None], sample=150, floats=6), de,
+        d_abs = pa.AbsoluteCategoricalDissimilarity(delta_empty=de)
+        add("cat", "abs", d_abs, grid_pairs(names3 + [None], sample=150, floats=6), de,
             rank=rank3, meta={"kind": "AbsoluteCategorical"})
+        add("cat", "abs", d_abs, grid_pairs(other3 + [None], sample=100), de,
+            rank=rank_other, meta={"kind": "AbsoluteCategorical (same object, other category names)"})
+        d_comb = pa.CombinedCategoricalDissimilarity(alpha=1, beta=2, delta_empty=de)
+        add("comb", "abs", d_comb, grid_pairs(names3, sample=80), de, 1, 2, rank=rank3, meta={"kind": "Combined(default categorical)"})
+        add("comb", "abs", d_comb, grid_pairs(other3, sample=80), de, 1, 2, rank=rank_other,
+            meta={"kind": "Combined(default categorical) (same object, other category names)"})
 
     # --- precomputed, 3 categories and many categories
     def pre_matrix(k):
@@ -184,10 +194,11 @@ def build_records(pa, rng, tier, rep):
         add("cat", "ord", d, grid_pairs(labs, sample=60), de, supplied=[rk[n] for n in labs], pos=[int(round(float(n) * 2)) for n in labs],
             rank=rk, meta={"kind": "Numerical", "labels_supplied": labs})
     # --- Levenshtein: relations only
-    labs = ["cat", "cart", "dog", "", "dogs"]
+    labs = ["cat", "cart", "dog", "", "dogs", "abcde", "bcdea", "edcba", "vwxyz", "abcdf", "tac"]
     rk = {n: i + 1 for i, n in enumerate(sorted(labs))}
     for de in des[:2]:
-        add("cat", "lev", pa.LevenshteinCategoricalDissimilarity(labs, delta_empty=de), grid_pairs(labs, sample=120), de, rank=rk,
+        lev_pairs = [((0, 2, a), (1, 3, b), True) for a in labs for b in labs]
+        add("cat", "lev", pa.LevenshteinCategoricalDissimilarity(labs, delta_empty=de), lev_pairs, de, rank=rk,
             meta={"kind": "Levenshtein"})
     # --- combined
     combos = [(a, b, de, same) for a in (0, 1, 3) for b in (0, 1, 3) for de in des for same in (True, False)]
